@@ -123,6 +123,11 @@ pub fn positions(p: usize) -> Vec<usize> {
             v.push(p - d);
         }
     }
+    for c in crate::sender::pow2_windows() {
+        if c <= p {
+            v.push(c);
+        }
+    }
     let v: Vec<usize> = v.into_iter().filter(|&x| x <= 65535).collect();
     uniq(v)
 }
